@@ -160,6 +160,29 @@ package kv
 // ---------------------------------------------------------------- database handle, as seen by the controllers (C04)
 
 // The term stored in the database, as a ghost value per database object.
+// The term is kept outside the shard's log, in a database that commits without fsync:
+// storing a term means committing it in one batch AND forcing a flush afterwards —
+// a node answers NewTerm only after its new term would survive a crash.
+//
+//@ func KV.Flush(recv) (err)
+//@ trusted
+//@ modifies ghost(flushes, recv)
+//@ ensures ghost(flushes, recv) == old(ghost(flushes, recv)) + 1
+
+//@ func now
+//@ trusted
+//@ pure
+//@ nondet
+
+//@ func db.UpdateTerm(d, newTerm, options) (err)
+//@ property C04 C05
+//@ assume NoOpCallback != nil because "package-level singleton callback, never reassigned"
+//@ requires d.kv != nil && d.sequenceWaiterTracker != nil && d.log != nil && d.versionIdTracker.v >= -1 && d.versionIdTracker.v < 4611686018427387902
+//@ assert at call Commit#0: ghost(commits, batch) == 0
+//@ assert at call Flush#0: recv == d.kv && ghost(commits, batch) == 1
+//@ ensures err == nil ==> ghost(flushes, d.kv) == old(ghost(flushes, d.kv)) + 1
+//@ modifies *
+
 //@ func DB.UpdateTerm(recv, newTerm, options) (err)
 //@ trusted
 //@ modifies ghost(dbTerm, recv)
